@@ -63,11 +63,21 @@ pub enum Cert {
     CriticalExt,
     LongSerial,
     Rsa4096,
+    NegativeSerial,
+    EmptySubject,
+    /// certificates derived from a valid one by DER surgery (signature no longer valid: only usable with
+    /// certificate checking off); index into ODD_CERTS
+    Odd(u8),
 }
 
+pub const ODD_CERTS: [&str; 10] = ["x509v1", "version4", "gentime", "badtime", "serial40", "unusedbits", "bmpsubject", "t61subject", "dupext", "emptyext"];
+
 impl Cert {
-    pub fn files(&self) -> (&'static str, &'static str) {
-        match self {
+    pub fn files(&self) -> (String, String) {
+        if let Cert::Odd(i) = self {
+            return (format!("odd-{}.cert.pem", ODD_CERTS[*i as usize % ODD_CERTS.len()]), "v1.key.pem".to_string());
+        }
+        let (c, k) = match self {
             Cert::A => ("a.cert.pem", "a.key.pem"),
             Cert::B => ("b.cert.pem", "b.key.pem"),
             Cert::M => ("m.cert.pem", "m.key.pem"),
@@ -76,7 +86,11 @@ impl Cert {
             Cert::CriticalExt => ("crit.cert.pem", "crit.key.pem"),
             Cert::LongSerial => ("serial.cert.pem", "serial.key.pem"),
             Cert::Rsa4096 => ("big.cert.pem", "big.key.pem"),
-        }
+            Cert::NegativeSerial => ("neg.cert.pem", "v1.key.pem"),
+            Cert::EmptySubject => ("nosubj.cert.pem", "v1.key.pem"),
+            Cert::Odd(_) => unreachable!(),
+        };
+        (c.to_string(), k.to_string())
     }
 }
 
